@@ -119,6 +119,22 @@ def is_catch_all(p):
     return False
 
 
+def r6_flag_targets(rep, facts):
+    R = rep.rule('C09/R6', 'header starters reset the implicit / dotted flags on the table being opened (self.current_table), never on the parent found by the '
+                 'walk: clearing a flag of the parent would let a later header reopen a table that dotted keys defined', floor=2)
+    for d in (ST + 'start_table', ST + 'start_array_table'):
+        b = facts.body(d)
+        sets = [n for n in walk(b['body']) if n.get('k') == 'mcall' and n.get('name') in ('set_dotted', 'set_implicit')]
+        wrong = []
+        for n in sets:
+            r = peel(n['recv'])
+            on_current = r.get('k') == 'field' and r.get('name') == 'current_table'
+            if not on_current:
+                wrong.append(f'{n["name"]} on `{(r.get("path") or r.get("name") or r.get("k"))}` (line {n.get("l")})')
+        rep.check(R, d.replace(P, ''), bool(sets) and not wrong, f'{len(sets)} flag resets, all on self.current_table',
+                  f'`{d.replace(P, "")}`: {"; ".join(wrong) if wrong else "no flag reset found"}', facts.loc(b))
+
+
 def r2_occupied_is_error(rep, facts):
     R = rep.rule('C09/R2', 'every occupied / mismatching case returns an error: Entry::Occupied arms, the catch-all arms of the header '
                  'starters, and the value arm of both descend_paths', floor=8)
@@ -367,6 +383,7 @@ def rules(rep, facts):
     r3_truth_tables(rep, facts)
     r3b_accessors(rep, facts)
     r4_plumbing(rep, facts)
+    r6_flag_targets(rep, facts)
 
 
 def run(tier):
